@@ -47,7 +47,10 @@ def code(t, i):
 
 
 def hexval(c):
-    return z3.If(c <= 57, c - 48, z3.If(c <= 70, c - 55, c - 87))
+    """value of a hexadecimal digit character: '0'..'9' -> 0..9, 'a'..'f' / 'A'..'F' -> 10..15 (the same term the engine's model
+    of int(text, 16) uses per digit, so that sums over many digits compare syntactically instead of by 3^n case splits)"""
+    from pyvc.models import _digit_val
+    return _digit_val(c)
 
 
 def spelled_number(kind, t):
@@ -135,12 +138,11 @@ def str_contracts(pairs=True):
             if raw and combo not in (("char",), ("simple", "char"), ("x", "simple")):
                 continue      # raw: escapes are not interpreted; a few representative bodies
             if not raw and len(combo) == 2:
-                # pairs: all under the short double-quoted style, the costly U kind paired with char and x only (both orders); a representative subset under one long style; single atoms under every style
+                # pairs: all 36 under the short double-quoted style; a representative subset under one long style; single atoms under every style
                 if (prefix, q) == ("", '"'):
-                    if "U" in combo and combo not in (("U", "char"), ("char", "U"), ("U", "x"), ("x", "U")):
-                        continue
+                    pass
                 elif (prefix, q) == ("", "'''"):
-                    if "U" in combo or combo[0] == combo[1]:
+                    if combo[0] == combo[1]:
                         continue
                 else:
                     continue
@@ -337,3 +339,74 @@ def independence_obligations(rep, sources):
             o.model = {"carried": sorted(carried)}
         else:
             o.status = "discharged"
+
+
+# ------------------------------------------------------------------ numerals: INT_LIT / UINT_LIT texts through the real constructors
+class _NumStr(VStr):
+    __slots__ = ("digits",)
+
+
+class NumeralDom(V.Dom):
+    """an arbitrary numeral  <lead><d1...dn>  with n digits of the given class (the text's length is fixed per contract)"""
+
+    def __init__(self, lead, digits_rx, n):
+        self.lead, self.rx, self.n = lead, digits_rx, n
+        self.label = f"{lead}{digits_rx}{{{n}}}"
+
+    def samples(self):
+        return []
+
+    def make(self, run, name):
+        # the digits as n code points constrained arithmetically to the digit class (far easier for the solver than a regex)
+        cs_ = [z3.Int(f"{name}_c{i}") for i in range(self.n)]
+        for c in cs_:
+            run.assume(z3.And(c >= 48, c <= 57) if self.rx == "[0-9]" else
+                       z3.Or(z3.And(c >= 48, c <= 57), z3.And(c >= 65, c <= 70), z3.And(c >= 97, c <= 102)))
+        units = [z3.StrFromCode(c) for c in cs_]
+        d = units[0] if self.n == 1 else z3.Concat(*units)
+        v = _NumStr(str, z3.Concat(z3.StringVal(self.lead), d) if self.lead else d)
+        v.digits = cs_
+        return v
+
+
+def spelled(codes, n, base):
+    dig = hexval if base == 16 else (lambda c: c - 48)
+    return z3.Sum(*[dig(codes[i]) * base ** (n - 1 - i) for i in range(n)]) if n > 1 else dig(codes[0])
+
+
+def numeral_contracts(tier="quick"):
+    """IntType(text) / UintType(text) for every numeral the INT_LIT / UINT_LIT terminals spell with up to 20 decimal or 17 hex
+    digits (leading zeros included): the value is the spelled number iff it is in range, otherwise ValueError - never a
+    wrapped or truncated value.  (Evaluator.literal hands the token text, the `u` suffix sliced off, to these constructors.)"""
+    cs = []
+    dec_ns = list(range(1, 21))
+    hex_ns = list(range(1, 18))
+    for cls, lo, hi, leads in ((ct.IntType, -(2 ** 63), 2 ** 63, ("", "-")), (ct.UintType, 0, 2 ** 64, ("",))):
+        for base, rx, ns, pfx in ((10, "[0-9]", dec_ns, ""), (16, HEX, hex_ns, "0x"), (16, HEX, hex_ns[:3], "0X")):
+            for lead in leads:
+                if cls is ct.UintType and lead:
+                    continue
+                for n in ns:
+                    dom = NumeralDom(lead + pfx, rx, n)
+
+                    def value(S, lead=lead, n=n, base=base):
+                        v = spelled(S.text.digits, n, base)
+                        return -v if lead == "-" else v
+
+                    def invoke(run, S, cls=cls):
+                        run.ghost["exact_numerals"] = True
+                        return run.call(V.VNative(cls), [S.text])
+
+                    def ret(S, r, cls=cls, lo=lo, hi=hi, value=value):
+                        from pyvc.values import VInt as _VInt
+                        if not (isinstance(r, _VInt) and r.cls is cls):
+                            return False
+                        v = value(S)
+                        return z3.And(r.t == v, v >= lo, v < hi)
+
+                    def bad(S, lo=lo, hi=hi, value=value):
+                        v = value(S)
+                        return z3.Or(v < lo, v >= hi)
+                    cs.append(V.Contract(f"celpy.celtypes:{cls.__name__}.__new__", [("text", dom)], name=f"{cls.__name__}('{lead}{pfx}' + {n} digits)",
+                                         invoke=invoke, native=(lambda cls: lambda N: cls(N["text"]))(cls), ret=ret, exc={ValueError: bad}, cover=False))
+    return cs
